@@ -14,7 +14,7 @@ SPEC = {
         "the engine primitives of parser/src/parser/mod.rs, token_stream.rs and syntax_stream.rs are modelled by hand (Parser/Machine.v) and tied to the code by K: the model run with the generated grammar must reproduce the real event stream event for event; the grammar itself and the kind/token tables are regenerated from the source on every run",
         "node spans are proved exact only for runs in which no span was computed from a last_token_span reset by truncate() (node_spans_exact); K requires that flag to be false on every real run; a grammar for which it is true exists (node_spans_exact_all_grammars_refuted)",
         "AST: S walks every node of the Debug rendering of the AST (structs and enum variants at every depth: expressions, quantifiers, ranges, pattern modifiers, meta values, hex tokens, jumps, alternatives): span ordered, inside the source, on character boundaries; the text at an identifier / literal node's span is that identifier / literal; a node lies inside its parent's own span; siblings are ordered and do not overlap. Two deliberate exceptions of the implementation are accepted: the span of a HexPattern node is its `{..}` literal and the span of a base64 modifier is its keyword (identifier, modifiers and alphabet lie outside)",
-        "the parser's fuel is per file (decremented in begin(), never replenished: checked by the translator) and the regenerated constant must be at least the reviewed 100,000,000 (parser_fuel_budget); on every run one valid source of 100,000 one-line rules (3.5 MB) must be covered byte for byte by the CST and yield all its rules in the AST",
+        "the parser's fuel is per file (decremented in begin(), never replenished: checked by the translator) and the regenerated constant must be at least the reviewed 100,000,000 (parser_fuel_budget); on every run one valid source of 40,000 one-line rules with tags, meta, a pattern and a three-term condition (4.9 MB; 150,000 rules in the thorough tier) must be covered byte for byte by the CST and yield all its rules in the AST",
         "a source that is valid UTF-8 must have a CST (no token may end inside a character)",
         "when the parser runs out of fuel the remaining tokens are not emitted (theorem out_of_fuel_truncates); this is reachable with 18 nested function calls and is recorded as a known finding (thorough tier only, the input takes minutes)",
         "Token::start_pos/end_pos/token_at_position/token_at_offset are modelled over (class, scalar values) token lists; rowan's tree navigation (prev_token/next_token, token_at_offset) is assumed to enumerate the tokens in order and is tied by K",
@@ -79,7 +79,7 @@ def classify_tok(case):
 
 def run_k(run, tier, seed, drv):
     n = 600 if tier == "quick" else 12000
-    args = ["--seed", seed, "--n", n] + ([] if tier == "quick" else ["--max-tokens", 140, "--fuel"])
+    args = ["--seed", seed, "--n", n] + ([] if tier == "quick" else ["--max-tokens", 140, "--fuel", "--big-rules", 150000])
     info = standard_k(run, drv, "C10", "c10", args, "K_C10_model_parser_vs_real_event_stream", classify)
     # the tokenizer wrapper: model with the real lexers as oracle vs the real token list
     nt = 600 if tier == "quick" else 6000
